@@ -83,6 +83,15 @@ def focus_elements(tier):
                 for tx in ((), (('t', '\n'),), (('t', 'x'),)):
                     out.append(el(k, (('placeholder', ph), ('value', v), ('readonly', None if v else ''), ('contenteditable', ph)), tx))
         out.append(el(k, (('href', 'u'), ('indeterminate', ''), ('selected', ''), ('type', 'checkbox' if k == 'input' else 'submit'))))
+    # an iframe (with a document of its own inside) as the LAST node of an element, one and two levels down: walks that skip iframe content
+    # must find their way out even when nothing follows, also in a detached fragment
+    inner = ('e', 'html', (), (('e', 'body', (), (('e', 'form', (), (('e', 'input', (('type', 'radio'), ('name', 'n')), ()),)), ('t', 'in')),),))
+    ifr = ('e', 'iframe', (), (inner,))
+    for k in ('form', 'p', 'div', 'fieldset'):
+        out.append(el(k, (('dir', 'auto'),), (('t', 'x'), el('input', (('type', 'radio'), ('name', 'n'))), ifr)))
+        out.append(el(k, (('lang', 'en'),), (el('span', (), (('t', 'y'), el('b', (), (ifr,)))),)))
+        out.append(el(k, (), (ifr, ('c', 'k'))))
+        out.append(el(k, (), (ifr,)))
     # exotic string content (still plain `str`): lone surrogates, NUL, the last code point, characters whose case mappings change length or
     # leave ASCII (U+0130, U+212A, U+00DF), in every attribute the matcher reads and in tag and attribute names
     for x in EXOTIC:
@@ -175,7 +184,8 @@ def wrap(context, batch):
 def shards(tier, seed):
     n = 48 if tier == 'quick' else 160
     return [('odd-all', tier, k, 28) for k in range(28)] + [('main', tier, i, n) for i in range(n)] + \
-        [('odd', tier, 0, 1), ('nontag', tier, 0, 1), ('huge', tier, 0, 1), ('degenerate', tier, 0, 1)]
+        [('odd', tier, 0, 1), ('nontag', tier, 0, 1), ('huge', tier, 0, 1), ('degenerate', tier, 0, 1)] + \
+        [('parsed', tier, d, 1) for d in ('forms', 'links', 'iframe', 'foreign', 'struct', 'iframe-meta')]
 
 
 HUNG = set()
@@ -499,12 +509,58 @@ def run_degenerate(sv, tier, res):
         res.nontrivial += 1
 
 
+NS_FORMS = ['[*|href]', '[|href]', '[*|type=text]', '*|input', '*|*', '|*', '[*|lang]', '*|a:link', ':not([*|id])', '[*|id]:root', '*|* > [*|class~=c]']
+
+
+def run_parsed(sv, tier, res, docname):
+    """Trees as the real parsers build them (html.parser, lxml, html5lib, lxml-xml for XHTML and plain XML): namespace declarations kept as
+    attributes, attributes with a namespace and without a name, doctype / processing-instruction / CDATA nodes, parser-inserted wrappers.
+    Every selector text plus the namespace forms x every entry point x the document and every element (and every element once detached)."""
+    import copy
+    from . import _docs
+    texts, base = selector_texts(sv, 'quick')
+    texts = texts[::1 if tier != 'quick' else 3] + NS_FORMS
+    for kind in _docs.KINDS:
+        soup = _docs.build(docname, kind)
+        els = T.elements(soup)
+        detached = []
+        if tier != 'quick' or docname in ('forms', 'iframe'):
+            for e in T.elements(copy.copy(soup))[1::7]:
+                detached.append(e.extract())
+        for ti, text in enumerate(texts):
+            if ti % 64 == 0:
+                sv.purge()
+            try:
+                c = sv.compile(text)
+            except Exception as e:
+                res.fail({'layer': 'compile', 'selector': text}, {'kind': 'compile', 'exc': type(e).__name__}, f'{text!r} does not compile: {e!r}')
+                continue
+            nbad = 0
+            for k, target in enumerate([soup] + els + detached):
+                bad = call_all(sv, c, text, target, els, res, full=k == 0 or k > len(els) or (k + ti) % 5 == 0)
+                if bad:
+                    nbad += 1
+                    res.outcome('raised')
+                    if nbad == 1:
+                        res.fail({'layer': 'parsed', 'doc': docname, 'kind': kind, 'selector': text, 'target': k - 1, 'entry': bad[0][0]},
+                                 {'kind': 'raise', 'exc': bad[0][1].split(':')[0], 'values': 'parsed:' + kind, 'entry': bad[0][0] if bad[0][0] in ('match', 'closest') else 'select-like'},
+                                 f'[{docname} via {kind}] {bad[0][0]}({text!r}) on {"the document" if k == 0 else str(target)[:80]!r}: {bad[0][1]}')
+                    else:
+                        res.failure_count += 1
+                else:
+                    res.outcome('returned')
+            res.nontrivial += 1 if not nbad else 0
+    res.count('parsed_documents', len(_docs.KINDS))
+
+
 def run_shard(desc):
     from .. import common
     sv = common.bind()
     warnings.simplefilter('ignore')
     res = shard.Result()
-    if desc[0] == 'odd-all':
+    if desc[0] == 'parsed':
+        run_parsed(sv, desc[1], res, desc[2])
+    elif desc[0] == 'odd-all':
         run_odd_all_selectors(sv, desc[1], res, desc[2])
     elif desc[0] == 'degenerate':
         run_degenerate(sv, desc[1], res)
@@ -535,6 +591,15 @@ def replay(case):
             return {'kind': 'compile', 'exc': type(e).__name__}, repr(e)
     text = case['selector']
     c = sv.compile(text)
+    if case['layer'] == 'parsed':
+        from . import _docs
+        soup = _docs.build(case['doc'], case['kind'])
+        els = T.elements(soup)
+        for target in [soup] + els:
+            bad = call_all(sv, c, text, target, els, shard.Result())
+            if bad:
+                return {'kind': 'raise', 'exc': bad[0][1].split(':')[0], 'values': 'parsed:' + case['kind']}, str(bad[0])
+        return None
     if case['layer'] == 'odd-all':
         r = shard.Result()
         run_odd_all_selectors(sv, 'quick', r)
